@@ -46,6 +46,11 @@ def run(rep, tier):
                 cases.append((js, cname, layout, "case_hkdf_limit", (a, cnt, posn, il, chunks),
                               "hkdf%s expand from counter %d position %d info %d requests %s" % (sfx, cnt, posn, il, list(chunks)),
                               "ascon_hkdf%s_expand" % sfx))
+            for ol in (8160, 8161, 8192, 70000):
+                if ol == 8160 and tier == "quick" and not cname.startswith("c64"):
+                    continue        # 255 blocks take ~10 s per case
+                cases.append((js, cname, layout, "case_hkdf_oneshot_limit", (a, ol), "hkdf%s one-shot output %d" % (sfx, ol),
+                              "ascon_hkdf" + sfx))
             for kl in (0, 16, 33):
                 for cl in (0, 9):
                     for ol in (16, 32, 41):
@@ -102,7 +107,8 @@ def rule_limit(rep, tier):
         if ok:
             rep.instance(rid, 1, {"function": name, "limit": 8160})
         else:
-            rep.violation(rid, name + ":limit", f.src, "%s does not begin by refusing outlen > 8160 with -1 before producing output" % name)
+            # another shape of the guard: the behaviour at 8160 / 8161 bytes is decided by C05.M (one-shot limit cases)
+            rep.unproved_item(rid, "%s: entry guard `outlen > 8160 -> -1` not recognised in this shape" % name)
     for name in ("ascon_hkdf_expand", "ascon_hkdfa_expand"):
         f = m.funcs.get(name)
         R = ptr.resolver(f)
@@ -127,5 +133,6 @@ def rule_limit(rep, tier):
         if ok:
             rep.instance(rid, 1, {"function": name, "refusal": "zero-fill then -1"})
         else:
-            rep.violation(rid, name + ":zero-fill", f.src, "%s does not zero-fill the unserved output before reporting -1" % name)
+            # decided behaviourally by the mid-stream cases of C05.M
+            rep.unproved_item(rid, "%s: no block fill of the output dominating the -1 return was recognised" % name)
     rep.floor(rid, 4)
